@@ -383,6 +383,17 @@ class Check:
         """A concrete input/history/schedule on which the implementation violates the property."""
         self.failures.append({"signature": signature, "what": what, "replay": replay})
 
+    def runner_crash(self, replay: dict, crash_text: str):
+        """The implementation runner died with an exception on this input.  When the exception passed through
+        asphalt's own code it is a concrete failing input (the implementation raises where the model, and the
+        property, say it does not); otherwise only the correspondence is broken."""
+        if "/asphalt/core/" in crash_text:
+            last = crash_text.strip().splitlines()[-1]
+            self.fail_input(f"{self.pid}:unexpected-exception",
+                            f"the implementation raised on this input: {last[:200]}", dict(replay, crash=crash_text[-1500:]))
+        else:
+            self.broke("impl-runner-crash", dict(replay, crash=crash_text))
+
     def broke(self, kind: str, detail):
         self.broken.append({"kind": kind, "detail": detail})
 
